@@ -536,3 +536,117 @@ func genLoad(ctx *core.Ctx) {
 		ctx.Add("c05.applyv", c05ApplyVArgs{c05ApplyArgs: c05ApplyArgs{c05Tree: t, Dict: core.EncodeVal(main)}, Env: env, SkipInterp: r.Intn(10) == 0})
 	}
 }
+
+// ---------------------------------------------------------------- the composed pipeline with extends (Props/C05Whole.lean)
+
+// genWhole feeds the integrator's `pipeline.load` check (real loader.LoadModelWithContext vs `Pipeline.load`) with documents
+// whose point is `extends` under `SkipExtends` off: same-file chains of depth 1..4 in one or several documents (extends is
+// resolved per document, before the merge with the earlier ones — a base that only an earlier document declares is a
+// missing base), cycles, missing bases, `file:` references (no file is reachable in the composed model), string and mapping
+// forms, attributes with special merge rules and short syntaxes along the chain, all option flags.
+func genWhole(ctx *core.Ctx) {
+	r := ctx.Rng
+	names := []string{"a", "b", "c", "d", "e"}
+	pick := func(p float64) bool { return r.Float64() < p }
+	alt := func(vs ...any) any { return vs[r.Intn(len(vs))] }
+	svc := func(tag string) map[string]any {
+		m := map[string]any{}
+		if pick(0.7) {
+			m["image"] = alt("img-"+tag, "${IMG:-dflt}-"+tag)
+		}
+		if pick(0.3) {
+			m["command"] = alt("run "+tag, []any{"run", tag})
+		}
+		if pick(0.35) {
+			m["environment"] = alt([]any{"K_" + tag + "=v", "SHARED=" + tag}, map[string]any{"K_" + tag: "v", "SHARED": tag, "N": 1})
+		}
+		if pick(0.3) {
+			m["labels"] = alt([]any{"l." + tag + "=v", "shared=" + tag}, map[string]any{"l." + tag: "v", "shared": tag})
+		}
+		if pick(0.25) {
+			m["volumes"] = alt([]any{"./d-" + tag + ":/data"}, []any{map[string]any{"type": "bind", "source": "./s-" + tag, "target": "/t-" + tag}}, []any{"named-" + tag + ":/n"})
+		}
+		if pick(0.2) {
+			m["build"] = alt("./ctx-"+tag, map[string]any{"context": "./ctx-" + tag, "args": alt([]any{"A=" + tag}, map[string]any{"A": tag})})
+		}
+		if pick(0.2) {
+			m["depends_on"] = alt([]any{"a"}, map[string]any{"a": map[string]any{"condition": "service_started"}})
+		}
+		if pick(0.2) {
+			m["networks"] = alt([]any{"n1"}, map[string]any{"n1": map[string]any{"aliases": []any{"al-" + tag}}})
+		}
+		if pick(0.2) {
+			m["logging"] = alt(map[string]any{"driver": "json-file", "options": map[string]any{"o-" + tag: "v"}}, map[string]any{"options": map[string]any{"max-size": tag}}, map[string]any{"driver": "syslog"})
+		}
+		if pick(0.15) {
+			m["env_file"] = alt("./e-"+tag+".env", []any{"./e-" + tag + ".env"})
+		}
+		if pick(0.15) {
+			m["ports"] = alt([]any{"80"}, []any{"8080:80"})
+		}
+		if pick(0.15) {
+			m["dns"] = alt("10.0.0.1", []any{"10.0.0.2"})
+			m["cap_add"] = []any{"CAP_" + tag}
+		}
+		return m
+	}
+	for i := 0; i < ctx.Pick(500, 20000); i++ {
+		nd := 1 + r.Intn(3)
+		if r.Intn(3) > 0 {
+			nd = 1
+		}
+		var docs []core.T
+		shape := "chain"
+		for d := 0; d < nd; d++ {
+			ns := names[:2+r.Intn(4)]
+			svcs := map[string]any{}
+			for j, nm := range ns {
+				s := svc(fmt.Sprintf("d%d%s", d, nm))
+				// a chain e → d → c → b → a inside the document: service j extends service j-1
+				if j > 0 && pick(0.75) {
+					ref := ns[j-1]
+					s["extends"] = alt(ref, map[string]any{"service": ref})
+				}
+				svcs[nm] = s
+			}
+			switch x := r.Float64(); {
+			case x < 0.08: // cycle of length 1..len
+				k := 1 + r.Intn(len(ns))
+				for j := 0; j < k; j++ {
+					svcs[ns[j]].(map[string]any)["extends"] = ns[(j+1)%k]
+				}
+				shape = fmt.Sprintf("cycle-%d", k)
+			case x < 0.14:
+				svcs[ns[len(ns)-1]].(map[string]any)["extends"] = alt("nosuch", map[string]any{"service": "nosuch"})
+				shape = "missing-base"
+			case x < 0.20:
+				svcs[ns[0]].(map[string]any)["extends"] = map[string]any{"service": "a", "file": alt("other.yaml", "./sub/o.yaml", "/abs/o.yaml")}
+				shape = "file-reference"
+			case x < 0.24 && d > 0:
+				// the base lives only in an earlier document
+				svcs = map[string]any{"z": map[string]any{"extends": "a", "image": "img-z"}}
+				shape = "base-in-earlier-document"
+			case x < 0.27:
+				svcs[ns[0]].(map[string]any)["extends"] = alt(map[string]any{"file": "x.yaml"}, map[string]any{"service": 1}, 7, []any{"a"})
+				shape = "malformed-extends"
+			}
+			doc := map[string]any{"services": svcs}
+			if pick(0.3) {
+				doc["networks"] = map[string]any{"n1": nil}
+			}
+			if pick(0.2) {
+				doc["volumes"] = map[string]any{"named-d0a": nil}
+			}
+			docs = append(docs, core.EncodeVal(doc))
+		}
+		o := map[string]any{"resolvePaths": true, "extends": true}
+		if r.Intn(4) == 0 {
+			o["skipInterpolation"], o["skipValidation"], o["skipDefaultValues"] = r.Intn(3) == 0, r.Intn(3) == 0, r.Intn(3) == 0
+			o["resolvePaths"], o["skipNormalization"] = r.Intn(3) > 0, r.Intn(3) == 0
+		}
+		env := c05LoadEnvs[r.Intn(2)]
+		ctx.Count("whole/" + shape)
+		ctx.Count(fmt.Sprintf("whole/docs=%d", nd))
+		ctx.Add("pipeline.load", map[string]any{"docs": docs, "opts": o, "env": env, "name": "p", "wd": "/w", "home": "/h", "mainFile": "/w/f0.yaml"})
+	}
+}
